@@ -45,6 +45,7 @@ def run(eng, ctx):
     from . import decoder as DEC
 
     DEC.conversion_total(eng, ctx, "C02.D8")  # ... and no field conversion fails on particular field contents
+    SH.suffix_table_domain(eng, ctx, "C03.D4")  # ... nor the naming of a field with a large group index (a pre-formatted suffix table that is too short)
     # ... and, for the MSM types, only if the satellite / cell maps built from the frame's own masks have an entry for every ordinal the
     # derived PRN / cell lookups ask for: a map that is too short, or one taken from another frame, raises in the lookup and the frame vanishes
     from . import C09 as MSMMAPS
